@@ -54,6 +54,8 @@ pub fn generate(
             &impl_group.assoc_bounds,
         ));
 
+    remove_duplicate_maybe_sized(&mut main_trait_impl.generics);
+
     // Remove unused params
     let mut non_predicate_param_indexer = NonPredicateParamIndexer::new(
         example_impl
@@ -108,6 +110,48 @@ pub fn generate(
         .for_each(|item| impl_item_resolver.visit_impl_item_mut(item));
 
     Some(main_trait_impl)
+}
+
+/// `?Sized` can come both from the main trait definition and from the impls. Keep the first one
+fn remove_duplicate_maybe_sized(generics: &mut syn::Generics) {
+    let Some(where_clause) = &mut generics.where_clause else {
+        return;
+    };
+
+    let mut unsized_types = Vec::new();
+    for predicate in &mut where_clause.predicates {
+        if let syn::WherePredicate::Type(predicate) = predicate {
+            let is_unsized = unsized_types.contains(&predicate.bounded_ty);
+
+            let mut is_first = !is_unsized;
+            predicate.bounds = core::mem::take(&mut predicate.bounds)
+                .into_iter()
+                .filter(|bound| {
+                    if let syn::TypeParamBound::Trait(syn::TraitBound {
+                        modifier: syn::TraitBoundModifier::Maybe(_),
+                        ..
+                    }) = bound
+                    {
+                        return core::mem::take(&mut is_first);
+                    }
+
+                    true
+                })
+                .collect();
+
+            if !is_unsized && !is_first {
+                unsized_types.push(predicate.bounded_ty.clone());
+            }
+        }
+    }
+
+    where_clause.predicates = core::mem::take(&mut where_clause.predicates)
+        .into_iter()
+        .filter(|predicate| match predicate {
+            syn::WherePredicate::Type(predicate) => !predicate.bounds.is_empty(),
+            _ => true,
+        })
+        .collect();
 }
 
 /// Generates main trait implementation with item values set to dummy values
@@ -399,12 +443,26 @@ mod param {
                 let mut type_params = IndexMap::new();
                 let mut const_params = IndexMap::new();
 
+                // NOTE: Const param given as a generic argument (`Kita<T, N>`) is parsed as a type
+                let const_param_args = bracketed
+                    .args
+                    .iter()
+                    .map(|arg| match arg {
+                        syn::GenericArgument::Type(syn::Type::Path(ty))
+                            if ty.qself.is_none() && ty.path.get_ident().is_some() =>
+                        {
+                            Some(syn::parse_quote!(#ty))
+                        }
+                        _ => None,
+                    })
+                    .collect::<Vec<Option<syn::Expr>>>();
+
                 main_trait
                     .generics
                     .params
                     .iter()
-                    .zip(&bracketed.args)
-                    .for_each(|(param, arg)| match (param, arg) {
+                    .zip(zip(&bracketed.args, &const_param_args))
+                    .for_each(|(param, (arg, const_param_arg))| match (param, arg) {
                         (
                             syn::GenericParam::Lifetime(param),
                             syn::GenericArgument::Lifetime(arg),
@@ -416,6 +474,11 @@ mod param {
                         }
                         (syn::GenericParam::Const(param), syn::GenericArgument::Const(arg)) => {
                             const_params.insert(param.ident.clone(), arg);
+                        }
+                        (syn::GenericParam::Const(param), syn::GenericArgument::Type(_))
+                            if const_param_arg.is_some() =>
+                        {
+                            const_params.insert(param.ident.clone(), const_param_arg.as_ref().unwrap());
                         }
                         _ => unreachable!(),
                     });
